@@ -2,6 +2,7 @@ package main
 
 import (
 	"bufio"
+	"bytes"
 	"encoding/json"
 	"fmt"
 	"io"
@@ -12,6 +13,7 @@ import (
 	"time"
 
 	"github.com/hashicorp/raft"
+	wal "github.com/hashicorp/raft-wal"
 )
 
 func jsonUnmarshal(b []byte, v interface{}) error { return json.Unmarshal(b, v) }
@@ -33,6 +35,7 @@ type wgen struct {
 	last  uint64
 	ops   []string
 	seg   int
+	lastU string
 }
 
 func (g *wgen) empty() bool { return g.last == 0 }
@@ -195,9 +198,18 @@ var stableKeys = []string{"43757272656e745465726d", "4c617374566f74655465726d", 
 func (g *wgen) stableOp() {
 	r := g.r
 	k := stableKeys[r.Intn(len(stableKeys))]
+	if g.lastU != "" && r.Intn(4) == 0 {
+		// repeat the previous SetUint64 verbatim (a retry), possibly after clearing the key
+		if r.Intn(2) == 0 {
+			g.ops = append(g.ops, "K "+strings.Fields(g.lastU)[1]+" nil")
+		}
+		g.ops = append(g.ops, g.lastU, "u "+strings.Fields(g.lastU)[1])
+		return
+	}
 	switch r.Intn(6) {
 	case 0:
-		g.ops = append(g.ops, fmt.Sprintf("U %s %x", k, genU64(r)))
+		g.lastU = fmt.Sprintf("U %s %x", k, genU64(r))
+		g.ops = append(g.ops, g.lastU)
 	case 1:
 		g.ops = append(g.ops, "u "+k)
 	case 2:
@@ -345,12 +357,43 @@ func crashPlan(c *ctx, r *rand.Rand, prefix string, depth int) string {
 			case 1: // torn: a random strict subset of the 8-byte chunks of the file image
 				nch := 2048
 				m := new(big.Int)
-				for ch := 0; ch < nch; ch++ {
-					if r.Intn(2) == 0 {
+				switch r.Intn(4) {
+				case 0: // half of the chunks
+					for ch := 0; ch < nch; ch++ {
+						if r.Intn(2) == 0 {
+							m.SetBit(m, ch, 1)
+						}
+					}
+					m.SetBit(m, r.Intn(64), 0)
+				case 1: // only the beginning reached the disk
+					for ch := 0; ch < 1+r.Intn(12); ch++ {
 						m.SetBit(m, ch, 1)
 					}
+				default: // everything (index and commit frames included) except one to three chunks
+					for ch := 0; ch < nch; ch++ {
+						m.SetBit(m, ch, 1)
+					}
+					for j := 0; j < 1+r.Intn(3); j++ {
+						m.SetBit(m, r.Intn(24+r.Intn(60)), 0)
+					}
 				}
-				m.SetBit(m, r.Intn(64), 0)
+				// a mask that happens to keep every byte of the pending writes is not torn
+				all := allNames(run.cfs)
+				full := run.cfs.imageAt(k, all, map[string]bool{n: true}, nil)
+				part := run.cfs.imageAt(k, all, nil, func(name string, nchunks int) []bool {
+					if name != n {
+						return nil
+					}
+					bs := make([]bool, nchunks)
+					for ch := range bs {
+						bs[ch] = m.Bit(ch) == 1
+					}
+					return bs
+				})
+				if full.files[n] != nil && part.files[n] != nil && bytes.Equal(full.files[n].data, part.files[n].data) {
+					kb = append(kb, n)
+					continue
+				}
 				var b, id uint64
 				fmt.Sscanf(n, "%020d-%016x.wal", &b, &id)
 				torn = append(torn, fmt.Sprintf("%x %x %s", b, id, m.Text(16)))
@@ -525,6 +568,41 @@ func genFaults(c *ctx, emit func(string)) {
 				g.ops = append(g.ops, "A")
 			}
 		}
+		switch r.Intn(7) {
+		case 0: // fault inside a suffix truncation, exactly one more batch, reopen
+			if !g.empty() && g.last > g.first {
+				g.ops = append(g.ops, fmt.Sprintf("! %x", r.Intn(2)), fmt.Sprintf("D %x %x", g.last, g.last+uint64(r.Intn(2))))
+				g.store()
+			}
+		case 1: // failed stable write, then the same write again
+			k := stableKeys[r.Intn(3)]
+			v := genU64(r)
+			g.ops = append(g.ops, fmt.Sprintf("U %s %x", k, v+1), "! 0", fmt.Sprintf("U %s %x", k, v), fmt.Sprintf("U %s %x", k, v), "u "+k)
+		case 3: // fault in the append that would seal the tail, then a tail truncation without reopen
+			if !g.empty() {
+				g.ops = append(g.ops, fmt.Sprintf("! %x", r.Intn(2)))
+				sz := g.seg
+				l := &raft.Log{Index: g.last + 1, Term: 1, Data: bytes.Repeat([]byte{7}, sz), AppendedAt: baseTime}
+				g.ops = append(g.ops, "S 1 "+logFields(l, true), "W", fmt.Sprintf("D %x %x", g.last, g.last))
+				if g.last > g.first {
+					g.last--
+				} else {
+					g.first, g.last = 0, 0
+				}
+			}
+		case 4: // fault inside the force-seal of a tail truncation, then the same truncation again
+			if !g.empty() && g.last > g.first {
+				g.ops = append(g.ops, fmt.Sprintf("! %x", r.Intn(2)), fmt.Sprintf("D %x %x", g.last, g.last), fmt.Sprintf("D %x %x", g.last, g.last))
+				g.last--
+			}
+		case 2: // fault in the base-index reset of an empty log, then an append at the old base
+			g.ops = append(g.ops, fmt.Sprintf("D 0 %x", g.last+5), fmt.Sprintf("! %x", r.Intn(2)))
+			g.first, g.last = 0, 0
+			save := *g
+			g.store()
+			g.first, g.last = save.first, save.last
+			g.store()
+		}
 		g.ops = append(g.ops, "A", "T", "X", "Z", "O", "A", "Y", "P")
 		// after reopen the WAL must be usable again
 		emit(strings.Join(g.ops, " ") + " " + probeOps(c, r, strings.Join(g.ops, " ")))
@@ -559,3 +637,138 @@ func genCodecID(c *ctx, emit func(string)) {
 }
 
 func init() { streams["codecid"] = &stream{gen: genCodecID, exec: execWal} }
+
+// stable: the StableStore as a durable map (C08): dense Set/Get/SetUint64/GetUint64
+// traffic on a few keys (set, overwrite, clear with nil, set again, retry of the same
+// value), interleaved with log operations, rotations, truncations and reopens; half of
+// the cases run on the real BoltDB.
+func genStable(c *ctx, emit func(string)) {
+	r := rand.New(rand.NewSource(c.seed))
+	for i := 0; i < c.n; i++ {
+		mode := "m"
+		if i%2 == 1 {
+			mode = "r"
+		}
+		g := newWgen(r, mode)
+		keys := stableKeys[:3+r.Intn(3)]
+		big := hx(bytes.Repeat([]byte{0xab}, 1500)) // pushes the bolt bucket out of its inline form
+		if r.Intn(3) == 0 {
+			g.ops = append(g.ops, "K "+keys[0]+" "+big)
+		}
+		n := 10 + r.Intn(30)
+		for j := 0; j < n; j++ {
+			k := keys[r.Intn(len(keys))]
+			switch x := r.Intn(16); {
+			case x < 3:
+				g.ops = append(g.ops, fmt.Sprintf("K %s %s", k, hx(genBytes(r, 24))), "k "+k)
+			case x < 5:
+				g.ops = append(g.ops, "K "+k+" nil", "k "+k, "u "+k)
+			case x < 7:
+				v := genU64(r)
+				g.ops = append(g.ops, fmt.Sprintf("U %s %x", k, v), "u "+k)
+				if r.Intn(2) == 0 { // clear, then the same value again
+					g.ops = append(g.ops, "K "+k+" nil", fmt.Sprintf("U %s %x", k, v), "u "+k)
+				}
+			case x < 9:
+				g.ops = append(g.ops, "k "+k, "u "+k)
+			case x < 12:
+				g.store()
+			case x < 13:
+				g.del()
+			case x < 14:
+				g.ops = append(g.ops, "X", "O")
+			default:
+				for _, kk := range keys {
+					g.ops = append(g.ops, "k "+kk)
+				}
+			}
+		}
+		for _, kk := range keys {
+			g.ops = append(g.ops, "k "+kk)
+		}
+		g.ops = append(g.ops, "A", "M", "X", "O", "A")
+		for _, kk := range keys {
+			g.ops = append(g.ops, "k "+kk)
+		}
+		g.ops = append(g.ops, "X")
+		emit(strings.Join(g.ops, " "))
+	}
+}
+
+func init() { streams["stable"] = &stream{gen: genStable, exec: execWal} }
+
+// stalechain: the chain "torn batch -> recovery -> shorter batch at the same offset ->
+// second power loss" in which the stale frames of the first torn batch would reappear
+// behind the commit of the second one unless recovery durably zeroes them (C02).
+func genStaleChain(c *ctx, emit func(string)) {
+	r := rand.New(rand.NewSource(c.seed))
+	encLen := func(l *raft.Log) int {
+		var buf bytes.Buffer
+		(&wal.BinaryCodec{}).Encode(l, &buf)
+		return buf.Len()
+	}
+	frame := func(n int) int { return 8 + n + (8-n%8)%8 }
+	mk := func(idx uint64, n int) *raft.Log {
+		d := make([]byte, n)
+		for i := range d {
+			d[i] = byte(0x41 + r.Intn(3))
+		}
+		return &raft.Log{Index: idx, Term: 1, Data: d, AppendedAt: baseTime}
+	}
+	for i := 0; i < c.n; i++ {
+		first := uint64(1 + r.Intn(50))
+		a0 := mk(first, r.Intn(40))
+		e1 := mk(first+1, 16+8*r.Intn(6))
+		e2 := mk(first+2, 8*r.Intn(5))
+		// f1's frame plus its commit frame must end exactly where e2's frame begins
+		f1 := mk(first+1, 0)
+		for n := 0; n < 200; n++ {
+			f1 = mk(first+1, n)
+			if frame(encLen(f1))+8 == frame(encLen(e1)) {
+				break
+			}
+		}
+		if frame(encLen(f1))+8 != frame(encLen(e1)) {
+			continue
+		}
+		prefix := fmt.Sprintf("wal 1000 1 m O S 1 %s W", logFields(a0, true))
+		dry := &walRun{line: prefix}
+		dry.c = &ctx{out: discardWriter(), stats: map[string]int{}}
+		dry.run()
+		if dry.cfs == nil {
+			continue
+		}
+		n0 := dry.cfs.nCounted()
+		var name string
+		for nm := range dry.cfs.files {
+			name = nm
+		}
+		var b, id uint64
+		fmt.Sscanf(name, "%020d-%016x.wal", &b, &id)
+		offB := 32 + frame(encLen(a0)) + 8
+		F1, F2 := frame(encLen(e1)), frame(encLen(e2))
+		commitB := (offB + F1 + F2) / 8
+		m1 := new(big.Int)
+		for ch := 0; ch < commitB; ch++ {
+			m1.SetBit(m1, ch, 1)
+		}
+		m2 := new(big.Int)
+		for ch := 0; ch <= offB/8; ch++ {
+			m2.SetBit(m2, ch, 1)
+		}
+		m2.SetBit(m2, (offB+F1-8)/8, 1) // the commit frame of the second batch
+		line := prefix + fmt.Sprintf(" S 2 %s %s W C %x 0 0 1 %x %x %s O A", logFields(e1, true), logFields(e2, true), n0+1, b, id, m1.Text(16))
+		dry2 := &walRun{line: line}
+		dry2.c = &ctx{out: discardWriter(), stats: map[string]int{}}
+		dry2.run()
+		if dry2.cfs == nil {
+			continue
+		}
+		n1 := dry2.cfs.nCounted()
+		line += fmt.Sprintf(" S 1 %s W C %x 0 0 1 %x %x %s O A P Y", logFields(f1, true), n1+1, b, id, m2.Text(16))
+		line += fmt.Sprintf(" S 1 %s W A X O A X", logFields(mk(first+1, 5), true))
+		emit(line)
+	}
+}
+
+func init() { streams["stalechain"] = &stream{gen: genStaleChain, exec: execWal} }
